@@ -30,14 +30,14 @@ import (
 
 // Case is the replayable descriptor of every leg.
 type Case struct {
-	Leg     string `json:"leg"` // rep | dir | perm | dirperm
-	Seed    uint64 `json:"seed"`
-	NEdit   int    `json:"n_edit,omitempty"`
-	Input   string `json:"input,omitempty"` // input name (rep, dir)
-	Kind    string `json:"kind,omitempty"`  // output kind that differed
-	Reps    int    `json:"reps,omitempty"`
+	Leg     string    `json:"leg"` // rep | dir | perm | dirperm
+	Seed    uint64    `json:"seed"`
+	NEdit   int       `json:"n_edit,omitempty"`
+	Input   string    `json:"input,omitempty"` // input name (rep, dir)
+	Kind    string    `json:"kind,omitempty"`  // output kind that differed
+	Reps    int       `json:"reps,omitempty"`
 	Perm    *PermCase `json:"perm,omitempty"`
-	DirPerm []int  `json:"dir_order,omitempty"`
+	DirPerm []int     `json:"dir_order,omitempty"`
 }
 
 func init() {
